@@ -458,7 +458,7 @@ def _yield_state(ctx, vsig):
     if yid is None:
         return 'susp-other'
     if yid >= 1000:
-        return 'deleg'
+        return 'deleg-' + ctx.get((yid - 1000) // 10, '?')
     return 'susp-' + ctx.get(yid, 'plain')
 
 
